@@ -72,10 +72,9 @@ pub fn deserialize_eps_zero<'a, T: ZeroCopy>(
 ) -> deser::Result<&'a T> {
     let bytes = core::mem::size_of::<T>();
     if bytes == 0 {
-        // SAFETY: T is zero-sized and `assume_init` is safe.
-        #[allow(invalid_value)]
-        #[allow(clippy::uninit_assumed_init)]
-        return Ok(unsafe { MaybeUninit::uninit().assume_init() });
+        // SAFETY: T is zero-sized, so a dangling (but non-null and
+        // aligned) pointer is a valid reference.
+        return Ok(unsafe { core::ptr::NonNull::<T>::dangling().as_ref() });
     }
     backend.align::<T>()?;
     let (pre, data, after) = unsafe { backend.data[..bytes].align_to::<T>() };
@@ -94,9 +93,10 @@ pub fn deserialize_eps_slice_zero<'a, T: ZeroCopy>(
     let len = usize::_deserialize_full_inner(backend)?;
     let bytes = len * core::mem::size_of::<T>();
     backend.align::<T>()?;
-    let (pre, data, after) = unsafe { backend.data[..bytes].align_to::<T>() };
-    debug_assert!(pre.is_empty());
-    debug_assert!(after.is_empty());
+    // SAFETY: we just checked the alignment, and the slice has
+    // exactly len * size_of::<T>() bytes. We do not use align_to,
+    // as it returns an empty slice for zero-sized types.
+    let data = unsafe { core::slice::from_raw_parts(backend.data[..bytes].as_ptr() as *const T, len) };
     backend.skip(bytes);
     Ok(data)
 }
